@@ -51,4 +51,4 @@ def run(ctx):
     ctx.evaluations = sum(len(c) - 11 for c in cases)
     ctx.distinct_nontrivial = nt
     ctx.search_stats = {"cases": len(cases), "lines": ctx.evaluations, "lines_with_address_tokens": nt, "short_strings": len(shorts)}
-    ctx.samples = [{"line": cases[0][11], "impl": textgen.outlines(i[0])[0]}, {"line": cases[1][12], "impl": textgen.outlines(i[1])[1]}]
+    ctx.samples = [textgen.sample(cases[0], i[0], 0), textgen.sample(cases[1], i[1], 1)]
